@@ -314,12 +314,13 @@ def argStep (mk : Text → Bool → Bool → Bool → Res Term) (ch : Char) (res
   else if st.openQuote then
     .ok { st.push ch with openQuote := !(ch == '"'),
                           numQuotes := if ch == '"' then st.numQuotes + 1 else st.numQuotes }
-  else if ch == '[' then .ok { st.push ch with square := st.square + 1 }
-  else if ch == ']' then .ok { st.push ch with square := st.square - 1 }
-  else if ch == '(' then .ok { st.push ch with round := st.round + 1 }
-  else if ch == ')' then .ok { st.push ch with round := st.round - 1 }
+  -- (after repair D20: brackets, parentheses and what they hold are not digits)
+  else if ch == '[' then .ok { st.push ch with square := st.square + 1, hasNonDigit := true }
+  else if ch == ']' then .ok { st.push ch with square := st.square - 1, hasNonDigit := true }
+  else if ch == '(' then .ok { st.push ch with round := st.round + 1, hasNonDigit := true }
+  else if ch == ')' then .ok { st.push ch with round := st.round - 1, hasNonDigit := true }
   else if st.round == 0 && st.square == 0 then argStepTop mk ch rest st
-  else .ok (st.push ch)
+  else .ok { st.push ch with hasNonDigit := true }
 
 /-- what follows the loop: the last argument, then the bracket counts -/
 def argsFinish (mk : Text → Bool → Bool → Bool → Res Term) (st : ArgSt) : Res (List Term) :=
@@ -404,26 +405,28 @@ def termFlags (chrs : Text) : Bool × Bool × Bool :=
   let signOK : Bool := chrs.length > 1 && isDigit ((chrs.drop 1).head?.getD 'x')
   flagLoop signOK chrs 0 (false, false, false)
 
-/-- `unescape` (repair D19): outside quotes, parentheses and brackets a backslash is dropped and the character
-    after it is taken as it is; a backslash at the end stays. -/
-def unescLoop : Text → Int → Int → Bool → Text
-  | [], _, _, _ => []
+/-- `unescape` (repairs D19, D21): outside quotes, parentheses and brackets a backslash is dropped and the character
+    after it is taken as it is; a backslash at the end stays. Also counts the double quotes outside parentheses
+    and brackets, the way `parse_arguments` counts them. -/
+def unescLoop : Text → Int → Int → Bool → Text × Nat
+  | [], _, _, _ => ([], 0)
   | ch :: rest, round, square, oq =>
-    if oq then ch :: unescLoop rest round square (!(ch == '"'))
-    else if ch == '[' then ch :: unescLoop rest round (square + 1) false
-    else if ch == ']' then ch :: unescLoop rest round (square - 1) false
-    else if ch == '(' then ch :: unescLoop rest (round + 1) square false
-    else if ch == ')' then ch :: unescLoop rest (round - 1) square false
+    let keep (r : Text × Nat) (q : Nat) : Text × Nat := (ch :: r.1, r.2 + q)
+    if oq then keep (unescLoop rest round square (!(ch == '"'))) (if ch == '"' then 1 else 0)
+    else if ch == '[' then keep (unescLoop rest round (square + 1) false) 0
+    else if ch == ']' then keep (unescLoop rest round (square - 1) false) 0
+    else if ch == '(' then keep (unescLoop rest (round + 1) square false) 0
+    else if ch == ')' then keep (unescLoop rest (round - 1) square false) 0
     else if round == 0 && square == 0 then
-      if ch == '"' then ch :: unescLoop rest round square true
+      if ch == '"' then keep (unescLoop rest round square true) 1
       else if ch == '\\' then
         match rest with
-        | c :: rest' => c :: unescLoop rest' round square false
-        | [] => [ch]
-      else ch :: unescLoop rest round square false
-    else ch :: unescLoop rest round square false
+        | c :: rest' => let r := unescLoop rest' round square false; (c :: r.1, r.2)
+        | [] => ([ch], 0)
+      else keep (unescLoop rest round square false) 0
+    else keep (unescLoop rest round square false) 0
 
-def unescape (s : Text) : Text := unescLoop s 0 0 false
+def unescape (s : Text) : Text × Nat := unescLoop s 0 0 false
 
 mutual
 /-- `parse_term` -/
@@ -444,8 +447,9 @@ def parseTerm (po : POps) : Nat → Text → Res Term
     else
       let fl := termFlags s
       -- after repair D19: escaping backslashes are removed the way parse_arguments removes them
-      let s' := if s.contains '\\' then unescape s else s
-      makeTerm po f s' fl.1 fl.2.1 fl.2.2
+      let u := unescape s
+      -- after repair D21: stray quotes are rejected as in parse_arguments and parse_linked_list
+      (checkQuotes s u.2).bind fun _ => makeTerm po f u.1 fl.1 fl.2.1 fl.2.2
 /-- `make_term` -/
 def makeTerm (po : POps) : Nat → Text → Bool → Bool → Bool → Res Term
   | 0, _, _, _, _ => .oof
